@@ -244,6 +244,18 @@ pub fn eval_err_kind(e: &EvaluationError) -> &'static str {
     }
 }
 
+/// the documented meaning of a CONDITION (WHERE, HAVING, an operand of AND / OR, a WHEN clause): a BOOLEAN is its
+/// value, NULL does not hold, a value of any other type has no truth value (`None`: evaluating it as a condition must be
+/// an error — C03 "type mismatch … makes the query report an error rather than emit a wrong value"). Written from the
+/// property sentence; deliberately NOT the implementation's `Value::bool()` (finding D69).
+pub fn truth(v: &Value) -> Option<bool> {
+    match v {
+        Value::Bool(b) => Some(*b),
+        Value::Null => Some(false),
+        _ => None,
+    }
+}
+
 #[derive(Debug, Clone, PartialEq)]
 pub enum Ev {
     Ok(Value),
